@@ -163,8 +163,12 @@ func vpC08GenURI(t *rapid.T) ([]byte, int, string) {
 	if rapid.IntRange(0, 5).Draw(t, "userinfo") == 5 {
 		b.WriteString(vpC08Pick(t, "ui", "user@", "user:pass@", ":@", "u%40ser:p%3Ass@", "a@b@"))
 	}
-	b.WriteString(vpC08Pick(t, "host", "example.com", "EXAMPLE.com:8080", "", "[::1]", "[::1]:80", "[::1", "::1]", "1.2.3.4", "a%41.com", "a b.com", "ex%zzample", "xn--e1afmkfd.xn--p1ai",
-		"host:notaport", "host:", "[fe80::1%25eth0]", "[v1.x]"))
+	if rapid.IntRange(0, 3).Draw(t, "v6host") == 0 {
+		b.WriteString(vpC08GenV6Host(t))
+	} else {
+		b.WriteString(vpC08Pick(t, "host", "example.com", "EXAMPLE.com:8080", "", "[::1]", "[::1]:80", "[::1", "::1]", "1.2.3.4", "a%41.com", "a b.com", "ex%zzample", "xn--e1afmkfd.xn--p1ai",
+			"host:notaport", "host:", "[fe80::1%25eth0]", "[v1.x]"))
+	}
 	for i, n := 0, rapid.IntRange(0, 5).Draw(t, "nseg"); i < n; i++ {
 		b.WriteString(vpC08Pick(t, "segsep", "/", "/", "//", "\\", "/./", "/../"))
 		b.WriteString(vpC08Pick(t, "seg", "a", "b c", "%2e", "%2E%2e", "..", ".", "", "%", "%4", "%zz", "%00", "%2f", "x;y=1", "ü", "+", "index.html", strings.Repeat("p", 200)))
@@ -177,6 +181,23 @@ func vpC08GenURI(t *rapid.T) ([]byte, int, string) {
 	}
 	in, origin := vpC08Finish(t, b.String(), 120)
 	return in, rapid.IntRange(0, 3).Draw(t, "hostsel"), origin
+}
+
+// vpC08GenV6Host builds a bracketed host from the pieces of the IPv6 literal grammar, well-formed or
+// not: groups of 0-5 hex digits, single and double colons in any position (leading, trailing,
+// repeated), an embedded IPv4 tail, a zone, a port.
+func vpC08GenV6Host(t *rapid.T) string {
+	var b strings.Builder
+	b.WriteString(vpC08Pick(t, "v6open", "[", "[", "[", "[[", ""))
+	for i, n := 0, rapid.IntRange(0, 9).Draw(t, "v6groups"); i < n; i++ {
+		b.WriteString(vpC08Pick(t, "v6grp", "", "0", "1", "db8", "fe80", "FFFF", "12345", "g", "2001"))
+		b.WriteString(vpC08Pick(t, "v6sep", ":", ":", ":", "::", "", ":::"))
+	}
+	b.WriteString(vpC08Pick(t, "v6tail", "", "", "1", "ffff", ":", "1.2.3.4", "1.2.3", "256.1.1.1", "1.2.3.4:"))
+	b.WriteString(vpC08Pick(t, "v6zone", "", "", "", "%25en0", "%25", "%en0", "%2"))
+	b.WriteString(vpC08Pick(t, "v6close", "]", "]", "]", "", "]]"))
+	b.WriteString(vpC08Pick(t, "v6port", "", "", ":80", ":", ":x"))
+	return b.String()
 }
 
 var vpC08URIHosts = [][]byte{nil, []byte("example.com"), []byte("h:8080"), []byte("[::1]")}
